@@ -702,8 +702,13 @@ class InterpolatableFunction(ABC):
             self.newInterpolationTable(newMin, newMax, newPoints)
             return
 
+        ## Extending the range by less than this is pointless, and would put two
+        ## abscissae so close together that the rounding error of the function
+        ## values dominates the slope of the spline between them
+        minExtension = 1e-8 * (self._rangeMax - self._rangeMin)
+
         # what to append to lower end
-        if newMin < self._rangeMin and pointsMin > 0:
+        if newMin < self._rangeMin - minExtension and pointsMin > 0:
 
             ## pointsMin equally spaced points from newMin up to, but excluding,
             ## the current lower end. linspace (unlike arange) cannot overshoot
@@ -718,7 +723,7 @@ class InterpolatableFunction(ABC):
             appendPointsMin = np.array([])
 
         # what to append to upper end
-        if newMax > self._rangeMax and pointsMax > 0:
+        if newMax > self._rangeMax + minExtension and pointsMax > 0:
 
             ## pointsMax equally spaced points above the current upper end, up to
             ## and including newMax
